@@ -100,6 +100,8 @@ class TryContext:
     # handler installed (the try block, or the catch block of a
     # try/catch/finally); a jump out of that code has to emit TRY_END
     handler_active: bool = False
+    # Number of enclosing loops/switches/labels when the statement was entered
+    loop_depth: int = 0
 
 
 class Compiler:
@@ -198,36 +200,60 @@ class Compiler:
         self.bytecode[pos + 1] = target & 0xFF  # Low byte
         self.bytecode[pos + 2] = (target >> 8) & 0xFF  # High byte
 
-    def _emit_pending_finally_blocks(self, down_to: int = 0) -> None:
-        """Leave the try statements above depth `down_to` (break/continue/return).
+    def _emit_exit_cleanup(
+        self, target: Optional[LoopContext] = None, pop_operands: bool = True
+    ) -> None:
+        """Leave the constructs between here and `target` (break/continue/return).
 
-        Innermost first: pop the statement's exception handler if the jump
-        starts in code it protects, then run its finally block inline.
+        `target` is the loop/switch/label a break or continue jumps to, or None
+        for a return. Innermost construct first: a loop or switch that is left
+        pops what it keeps on the operand stack, a try statement that is left
+        pops its exception handler (if the jump starts in code it protects)
+        and runs its finally block inline (`pop_operands=False`: a return
+        with its value on the operand stack and no finally block to run leaves
+        the discarding to RETURN). The finally block is compiled as
+        the code *outside* its try statement that it is: with the try
+        statements and loops that enclose that statement, not the ones the
+        jump starts in.
         """
         saved_try_stack = self.try_stack
-        for depth in range(len(saved_try_stack) - 1, down_to - 1, -1):
-            try_ctx = saved_try_stack[depth]
-            if try_ctx.handler_active:
-                self._emit(OpCode.TRY_END)
-            if try_ctx.finalizer:
-                # The finally block itself is outside this try statement
-                self.try_stack = saved_try_stack[:depth]
-                try:
-                    self._compile_statement(try_ctx.finalizer)
-                finally:
-                    self.try_stack = saved_try_stack
-
-    def _emit_pops_for_exit(self, target: LoopContext) -> None:
-        """Pop the operands held by the constructs a break/continue jumps out of.
-
-        The target construct itself keeps its operand: its own exit code pops
-        it (break) or the loop goes on using it (continue).
-        """
-        for loop_ctx in reversed(self.loop_stack):
-            if loop_ctx is target:
-                break
-            for _ in range(loop_ctx.stack_items):
-                self._emit(OpCode.POP)
+        saved_loop_stack = self.loop_stack
+        if target is None:
+            stop_loop, stop_try = -1, -1
+        else:
+            stop_loop = next(
+                i for i, ctx in enumerate(saved_loop_stack) if ctx is target
+            )
+            stop_try = target.try_depth - 1
+        li = len(saved_loop_stack) - 1
+        ti = len(saved_try_stack) - 1
+        while li > stop_loop or ti > stop_try:
+            if li > stop_loop and saved_loop_stack[li].try_depth > ti:
+                # The innermost construct still to leave is a loop/switch
+                # (it was entered inside try statement number ti, or none)
+                if pop_operands:
+                    for _ in range(saved_loop_stack[li].stack_items):
+                        self._emit(OpCode.POP)
+                li -= 1
+            elif ti > stop_try:
+                try_ctx = saved_try_stack[ti]
+                if try_ctx.handler_active:
+                    self._emit(OpCode.TRY_END)
+                if try_ctx.finalizer:
+                    self.try_stack = saved_try_stack[:ti]
+                    self.loop_stack = saved_loop_stack[: try_ctx.loop_depth]
+                    try:
+                        self._compile_statement(try_ctx.finalizer)
+                    finally:
+                        self.try_stack = saved_try_stack
+                        self.loop_stack = saved_loop_stack
+                ti -= 1
+            else:
+                # Loops that enclose every remaining try statement
+                if pop_operands:
+                    for _ in range(saved_loop_stack[li].stack_items):
+                        self._emit(OpCode.POP)
+                li -= 1
 
     def _add_constant(self, value: Any) -> int:
         """Add a constant and return its index."""
@@ -708,11 +734,8 @@ class Compiler:
                 else:
                     raise SyntaxError("'break' outside of loop")
 
-            # Leave the try statements entered inside the target construct
-            self._emit_pending_finally_blocks(ctx.try_depth)
-
-            # Pop what the constructs nested inside the target keep on the stack
-            self._emit_pops_for_exit(ctx)
+            # Leave the loops, switches and try statements inside the target
+            self._emit_exit_cleanup(ctx)
 
             pos = self._emit_jump(OpCode.JUMP)
             ctx.break_jumps.append(pos)
@@ -735,11 +758,8 @@ class Compiler:
             if ctx is None:
                 raise SyntaxError(f"label '{target_label}' not found")
 
-            # Leave the try statements entered inside the target loop
-            self._emit_pending_finally_blocks(ctx.try_depth)
-
-            # Pop what the constructs nested inside the target keep on the stack
-            self._emit_pops_for_exit(ctx)
+            # Leave the loops, switches and try statements inside the target
+            self._emit_exit_cleanup(ctx)
 
             pos = self._emit_jump(OpCode.JUMP)
             ctx.continue_jumps.append(pos)
@@ -758,13 +778,14 @@ class Compiler:
                     slot = self._get_local(pending)
                     self._emit(OpCode.STORE_LOCAL, slot)
                     self._emit(OpCode.POP)
-                    self._emit_pending_finally_blocks()
+                    self._emit_exit_cleanup()
                     self._emit(OpCode.LOAD_LOCAL, slot)
                 else:
-                    self._emit_pending_finally_blocks()
+                    # Only handlers to pop; RETURN discards the frame's operands
+                    self._emit_exit_cleanup(pop_operands=False)
                 self._emit(OpCode.RETURN)
             else:
-                self._emit_pending_finally_blocks()
+                self._emit_exit_cleanup()
                 self._emit(OpCode.RETURN_UNDEFINED)
 
         elif isinstance(node, ThrowStatement):
@@ -775,7 +796,9 @@ class Compiler:
         elif isinstance(node, TryStatement):
             # Every try statement is tracked so that break/continue/return out
             # of it pop its handler and run its finally block
-            try_ctx = TryContext(finalizer=node.finalizer)
+            try_ctx = TryContext(
+                finalizer=node.finalizer, loop_depth=len(self.loop_stack)
+            )
             self.try_stack.append(try_ctx)
 
             # Try block
